@@ -1,0 +1,53 @@
+//go:build verif
+
+package store
+
+// Verification hooks (build tag `verif` only; add-only, no production code path uses them).
+
+// VerifPurgeBlockCache empties the process-wide block cache so that one test binary can behave
+// like a freshly started process.
+func VerifPurgeBlockCache() { blockCache.Purge() }
+
+// VerifIndexerKey exposes the indexer's unexported key builders by name, for differential checks
+// of the key layout. ok=false when the name/arity is unknown.
+func VerifIndexerKey(name string, u []uint64, b [][]byte) (key []byte, ok bool) {
+	t := &Indexer{}
+	nu, nb := len(u), len(b)
+	switch {
+	case name == "txHashKey" && nu == 0 && nb == 1:
+		return t.txHashKey(b[0]), true
+	case name == "eventHeightKey" && nu == 1 && nb == 0:
+		return t.eventHeightKey(u[0]), true
+	case name == "eventBlockHeightKey" && nu == 1 && nb == 0:
+		return t.eventBlockHeightKey(u[0]), true
+	case name == "eventHeightAndIndexKey" && nu == 2 && nb == 0:
+		return t.eventHeightAndIndexKey(u[0], u[1]), true
+	case name == "eventChainIdKey" && nu == 1 && nb == 1:
+		return t.eventChainIdKey(u[0], b[0]), true
+	case name == "eventAddressKey" && nu == 0 && nb == 2:
+		return t.eventAddressKey(b[0], b[1]), true
+	case name == "txHeightAndIndexKey" && nu == 2 && nb == 0:
+		return t.txHeightAndIndexKey(u[0], u[1]), true
+	case name == "txHeightKey" && nu == 1 && nb == 0:
+		return t.txHeightKey(u[0]), true
+	case name == "txSenderKey" && nu == 0 && nb == 2:
+		return t.txSenderKey(b[0], b[1]), true
+	case name == "txRecipientKey" && nu == 0 && nb == 2:
+		return t.txRecipientKey(b[0], b[1]), true
+	case name == "blockHashKey" && nu == 0 && nb == 1:
+		return t.blockHashKey(b[0]), true
+	case name == "blockHeightKey" && nu == 1 && nb == 0:
+		return t.blockHeightKey(u[0]), true
+	case name == "qcHeightKey" && nu == 1 && nb == 0:
+		return t.qcHeightKey(u[0]), true
+	case name == "checkpointsCommitteeKey" && nu == 1 && nb == 0:
+		return t.checkpointsCommitteeKey(u[0]), true
+	case name == "checkpointKey" && nu == 2 && nb == 0:
+		return t.checkpointKey(u[0], u[1]), true
+	case name == "doubleSignerHeightKey" && nu == 1 && nb == 1:
+		return t.doubleSignerHeightKey(b[0], u[0]), true
+	case name == "stateChangeVersionPrefix" && nu == 1 && nb == 0:
+		return t.stateChangeVersionPrefix(u[0]), true
+	}
+	return nil, false
+}
